@@ -56,7 +56,14 @@ def gen_case(rng, name):
         else:
             fcs.append(float(freq[int(rng.integers(0, nf))] + rng.choice([-1, 1]) * 5e-7))   # within 1e-6 of a bin
     bw = gen_bw(rng, name, df)
-    return dict(op=name, bw=bw, freq=freq.tolist(), rows=rows.tolist(), fcs=fcs, kind=str(kind), n=n, dt=dt)
+    case = dict(op=name, bw=bw, freq=freq.tolist(), rows=rows.tolist(), fcs=fcs, kind=str(kind), n=n, dt=dt)
+    if rng.random() < 0.12 and freq[-1] >= 3:
+        # whole-number centre frequencies handed over as an integer (or single-precision) array, as np.array([1, 2, 5, 10]) or
+        # np.arange(...) in a settings object gives: the values are the same numbers, so must the result be
+        top = int(np.floor(freq[-1]))
+        case["fcs"] = [float(x) for x in sorted(set(int(v) for v in rng.integers(1, top + 1, nc)))]
+        case["fcs_dtype"] = str(rng.choice(["int64", "int32", "float32"]))
+    return case
 
 
 def gen_exact_case(rng, name):
@@ -76,7 +83,7 @@ def gen_exact_case(rng, name):
 
 def impl(case, interpreted):
     import hvsrpy.smoothing as sm
-    f = np.array(case["freq"]); rows = np.array(case["rows"]); fcs = np.array(case["fcs"])
+    f = np.array(case["freq"]); rows = np.array(case["rows"]); fcs = np.array(case["fcs"], dtype=case.get("fcs_dtype", "float64"))
     fn = sm.SMOOTHING_OPERATORS[case["op"]]
     try:
         if interpreted:
@@ -170,7 +177,7 @@ def spec_probes(ctx, case, out):
 
 def run(ctx):
     ctx.rule = ("cases = operator x grid (rfftfreq(n, dt) incl. the 0 Hz bin, some irregular grids) x spectra (1-5 rows: noise over 12 decades, constant, "
-                "cubic polynomial, spiky) x centre frequencies (on grid, off grid, below first bin, above last, around the 1e-6 guard, within 1e-6 of a bin) x "
+                "cubic polynomial, spiky) x centre frequencies (on grid, off grid, below first bin, above last, around the 1e-6 guard, within 1e-6 of a bin; whole numbers passed as int64/int32/float32 arrays) x "
                 "bandwidths over 2-3 decades (SG: m in {1,3,5,9,21}, even and fractional m); compiled AND interpreted (.py_func) implementation vs model; "
                 "non-trivial = >=1 centre frequency with >=2 contributing samples and a non-constant row; distinct by input hash")
     ctx.trusted += ["np.power(10, x) vs exp(x ln 10) and libm sin/log10: 1e-9 relative tolerance; samples within 1e-9 (relative) of a window limit are near ties"]
@@ -191,6 +198,7 @@ def run(ctx):
                              impl_first_row=(comp[0][:4].tolist() if not isinstance(comp, str) else comp)))
         ctx.count("op:" + c["op"])
         ctx.count("kind:" + c["kind"])
+        ctx.count("fcs_dtype:" + c.get("fcs_dtype", "float64"))
         ctx.count("result:" + ("err" if isinstance(comp, str) else "zero-cols" if np.any(np.all(comp == 0, axis=0)) else "full"))
         ctx.traces += 1
 
